@@ -4,6 +4,7 @@ from __future__ import annotations
 
 import os
 import subprocess
+import time
 
 import common
 
@@ -16,7 +17,14 @@ class Tool:
             rc, out = common.sh(["bash", "extract.sh"], cwd=common.COQ / "Bounds", timeout=600)
             if rc != 0:
                 raise RuntimeError("cannot build the extracted Bounds tool: " + out[-500:])
-        self.p = subprocess.Popen([TOOL], stdin=subprocess.PIPE, stdout=subprocess.PIPE, text=True, bufsize=1)
+        for attempt in range(6):
+            try:
+                self.p = subprocess.Popen([TOOL], stdin=subprocess.PIPE, stdout=subprocess.PIPE, text=True, bufsize=1)
+                break
+            except OSError:
+                if attempt == 5:
+                    raise
+                time.sleep(4)
 
     def ask(self, line: str) -> str:
         self.p.stdin.write(line + "\n")
